@@ -933,7 +933,9 @@ def programs_of_expression(expr, points, scalar, label=""):
     from .ufl2tree import Treeifier, lower_integrand
 
     cx = scalar.startswith("complex")
-    coefs = ufl.algorithms.extract_coefficients(expr)
+    # the kernel's w holds the coefficients that survive algebra lowering and differentiation, in count order
+    # (identified by original_coefficient_positions); constants are those of the expression as written
+    coefs = ufl.algorithms.extract_coefficients(apply_derivatives(apply_algebra_lowering(expr)))
     consts = ufl.algorithms.analysis.extract_constants(expr)
     arguments = sorted(ufl.algorithms.extract_arguments(expr), key=lambda a: a.number())
     dom = ufl.domain.extract_unique_domain(expr)
